@@ -769,6 +769,8 @@ var vfC10Seeds = map[string][]string{
 	"mesh":      {"conn:p", "conn:q", "graft:p:t", "adv:1000", "adv:100", "decay"},                      // p active in the mesh, q a colocated bystander
 	"delivered": {"conn:p", "conn:q", "graft:p:t", "graft:q:t", "val:m1:p", "deliver:m1:p", "dup:m1:q"}, // deliveries recorded, both in the mesh
 	"retained":  {"conn:p", "graft:p:t", "penalty:p:2", "penalty:p:2", "disc:p"},                        // p disconnected with a retained negative score
+	// m1 has been in validation for longer than the delivery window (first seen 600 ms ago, not yet validated), both peers active in the mesh
+	"validating": {"conn:p", "conn:q", "graft:p:t", "graft:q:t", "adv:1000", "adv:100", "decay", "val:m1:p", "adv:600"},
 }
 
 func vfC10Cfg(r *vfRun, pname, seed string) *vfExploreCfg {
@@ -804,7 +806,7 @@ func init() {
 			names := vfC10ParamNames(r.thorough)
 			r.res.Bounds["parameter_sets"] = len(names)
 			for _, pn := range names {
-				for _, seed := range []string{"", "mesh", "delivered", "retained"} {
+				for _, seed := range []string{"", "mesh", "delivered", "retained", "validating"} {
 					if seed != "" && pn != "full" && pn != "alt" && pn != "skip:31" && pn != "peer-skip" {
 						continue
 					}
